@@ -35,6 +35,16 @@ REQUIRED = [
 # branches in which the requester's own grant is raised (theorems c08_self_raise_*_stored)
 RAISE = ("t-raise-admin", "t-raise-owner", "t-accept-raise")
 TEST_NAME = "^TestVerifC08cPerm$"
+# reply code(s) a fault-free request of a branch is answered with ({sub}: 200 where {set sub} says 304 "not modified");
+# recorded next to the measured codes in the evidence (a consistency check of the labels, not a verdict)
+EXPECT = {b: ("200",) for b in REQUIRED}
+EXPECT.update({
+    "sub-attached": ("304",), "t-junk": ("400",), "t-new-limit": ("422",), "t-new-banned": ("403",), "t-owner-keeps": ("403",),
+    "t-ask-owner": ("403",), "t-banned": ("403",), "t-unselfban-banned": ("403", "200", "304"), "t-default-nochange": ("200", "304"),
+    "t-same": ("200", "304"), "a-not-sharer": ("403",), "a-junk": ("400",), "a-sharer-explicit": ("403",),
+    "a-give-owner-nonowner": ("403",), "a-new-limit": ("422",), "a-invite-unknown": ("404",), "a-invite-nojoin": ("403",),
+    "a-nochange": ("304",), "a-strip-owner": ("403",), "o-empty": ("304",), "o-other-user": ("403",), "o-nosub": ("404",),
+    "o-junk": ("500",), "o-owner-bit": ("403",), "o-same": ("304",)})
 
 
 def mstr(m):
